@@ -11,7 +11,7 @@
 //! compare every private field with the skeleton builder used here, and (b) natively: when a
 //! harness is replayed outside the solver (`under_solver() == false`) every skeleton is compared
 //! with the result of the real `parse_str`, and every URI with the real `RouteUri::from_str`.
-#![allow(dead_code, unused_imports, unused_variables)]
+#![allow(dead_code, unused_imports, unused_variables, unused_parens)]
 
 use super::*;
 use crate::route_uri::verif_kani::path_only_uri;
@@ -30,6 +30,23 @@ pub fn stub_fmt_write(
     _a: std::fmt::Arguments<'_>,
 ) -> std::fmt::Result {
     Ok(())
+}
+
+/// Family E only: in those shapes the only parameter position faces an empty URI segment, so
+/// `unapply_parts` must return before it records a binding. Reaching `HashMap::insert` IS the
+/// violation (and std's real `insert` never finishes under CBMC).
+pub fn stub_insert_unreachable<K, V, S, A>(
+    _m: &mut HashMap<K, V, S, A>,
+    _k: K,
+    _v: V,
+) -> Option<V>
+where
+    K: Eq + std::hash::Hash,
+    S: std::hash::BuildHasher,
+    A: std::alloc::Allocator,
+{
+    kani::assert(false, "C18:parameter_never_binds_empty[insert reached]");
+    None
 }
 
 /// `true` under Kani (where `core::fmt::write` is the stub above), `false` in a native replay.
